@@ -124,7 +124,7 @@ def run(res):
     for tag, text in progs:
         items.append((tag, text, "exec"))
         if len(text) < 30000:
-            new, names = layout.compose(text, rng, names=rng.sample(["blank_comment_lines", "eol_comments", "bracket_newlines", "backslash_joins", "form_feeds", "newline_style", "bom", "reindent", "tight_spacing", "token_spacing", "redundant_parens"], 3))
+            new, names = layout.compose(text, rng, names=rng.sample(["blank_comment_lines", "eol_comments", "bracket_newlines", "backslash_joins", "form_feeds", "newline_style", "bom", "reindent", "tight_spacing", "token_spacing", "redundant_parens", "backslash_only_lines", "continuation_then_blank_line", "form_feeds_between_tokens", "eof_whitespace", "trailing_blanks"], 3))
             if new:
                 items.append(("layout:%s:%s" % ("+".join(names), tag), new, rng.choice(["exec", "exec", "single"])))
             if len(text) < 4000:
